@@ -155,7 +155,8 @@ func createVirtualServerHandlers(lbc *LoadBalancerController) cache.ResourceEven
 
 			}
 
-			if !reflect.DeepEqual(oldVs.Spec, curVs.Spec) {
+			// the same name with another UID is another object (deleted and created again while the watch was down)
+			if !reflect.DeepEqual(oldVs.Spec, curVs.Spec) || oldVs.UID != curVs.UID {
 				nl.Debugf(lbc.Logger, "VirtualServer %v changed, syncing", curVs.Name)
 				lbc.AddSyncQueue(curVs)
 			}
@@ -215,7 +216,8 @@ func createVirtualServerRouteHandlers(lbc *LoadBalancerController) cache.Resourc
 
 			}
 
-			if !reflect.DeepEqual(oldVsr.Spec, curVsr.Spec) {
+			// the same name with another UID is another object (deleted and created again while the watch was down)
+			if !reflect.DeepEqual(oldVsr.Spec, curVsr.Spec) || oldVsr.UID != curVsr.UID {
 				nl.Debugf(lbc.Logger, "VirtualServerRoute %v changed, syncing", curVsr.Name)
 				lbc.AddSyncQueue(curVsr)
 			}
